@@ -156,7 +156,7 @@ def run(chk, replay=None):
         rep = {"case": c, "observed": o}
         site = site_of(c)
         if got == "panic":
-            report(chk, "panic:%s" % o["panic"]["loc"].replace("/repo/", ""),
+            report(chk, "panic:%s" % lib.norm_loc(o["panic"]["loc"]),
                        "type checking panics (%s) on:\n%s" % (o["panic"]["msg"], text), rep)
             continue
         if got == "front-error":
@@ -201,7 +201,7 @@ def run(chk, replay=None):
                     break
             later = o.get("later")
             if isinstance(later, dict) and "panic" in later:
-                report(chk, "well-typed-panics-later:%s" % later["panic"]["loc"].replace("/repo/", ""),
+                report(chk, "well-typed-panics-later:%s" % lib.norm_loc(later["panic"]["loc"]),
                            "a pass after type_check panics on a well-typed program: %s\n%s" % (later["panic"]["msg"], text), rep)
         tag = (c["ok"], len(c["pos"]) > 0, c["m"] != "none")
         if tag not in sampled and len(c["pos"]) in (0, 2) and not c["in_free"]:
